@@ -1,6 +1,8 @@
 package types
 
 import (
+	"strconv"
+
 	"github.com/tinylib/msgp/msgp"
 	"github.com/valyala/fastjson"
 )
@@ -43,7 +45,16 @@ func AppendJSONValue(buf []byte, v *fastjson.Value) ([]byte, error) {
 		s, _ := v.StringBytes()
 		return msgp.AppendStringFromBytes(buf, s), nil
 	case fastjson.TypeNumber:
-		return msgp.AppendFloat64(buf, v.GetFloat64()), nil
+		// fastjson's own float parser is best-effort: for numbers written with
+		// a fraction and an exponent it rounds twice and can be one ulp off, so
+		// the same number would arrive differently in a batch and in a single
+		// event. Parse the literal text exactly.
+		var scratch [32]byte
+		f, err := strconv.ParseFloat(string(v.MarshalTo(scratch[:0])), 64)
+		if err != nil {
+			f = v.GetFloat64()
+		}
+		return msgp.AppendFloat64(buf, f), nil
 	case fastjson.TypeTrue:
 		return msgp.AppendBool(buf, true), nil
 	case fastjson.TypeFalse:
